@@ -5,7 +5,6 @@ ROOT = os.path.dirname(os.path.dirname(os.path.abspath(__file__)))
 sys.path.insert(0, ROOT)
 
 NA = {
-    "C21": "which bits a bulk zero/set/copy touches is byte/bit range-splitting arithmetic over arbitrary (start,size): no structural clause, runtime values only",
     "C22": "equality of fast and naive bit scans is a value property of word/bit arithmetic over arbitrary bitmaps",
     "C26": "disjointness and complete coalescing of free-list runs is a shape invariant of a linked table under arbitrary alloc/free histories",
     "C32": "descriptor encode/decode round-trip is mantissa/exponent arithmetic over all inputs",
